@@ -198,6 +198,16 @@ def _integrate_over(expr: ast.AST, generators: Sequence[ast.comprehension]) -> a
     return core.parse(str(sym_expr))
 
 
+# Raised for expressions the symbolic backend cannot express, e.g. sum([]), range() or len(generator)
+_UNSUPPORTED_BY_BACKEND = (
+    NotImplementedError,
+    AttributeError,
+    TypeError,
+    ValueError,
+    sympy.SympifyError,
+)
+
+
 @processing.fix
 def simplify_math_iterators(source: str) -> str:
     root = core.parse(source)
@@ -229,9 +239,13 @@ def simplify_math_iterators(source: str) -> str:
                 continue
             if node.func.id != "sum":
                 continue
-            if not core.match_template(_get_range_start_end(arg)[2], ast.Constant(value=1)):
-                continue  # Only the sum over consecutive integers has a closed form here
-            yield node, _sum_range(arg)
+            try:
+                if not core.match_template(_get_range_start_end(arg)[2], ast.Constant(value=1)):
+                    continue  # Only the sum over consecutive integers has a closed form here
+                replacement = _sum_range(arg)
+            except _UNSUPPORTED_BY_BACKEND:
+                continue
+            yield node, replacement
 
         elif core.match_template(arg, basic_collection_template):
             if any(core.walk(arg, ast.Attribute)):
@@ -241,7 +255,11 @@ def simplify_math_iterators(source: str) -> str:
                 for node in core.walk(arg, ast.Call)
             ):
                 continue
-            yield node, _sum_constants(arg.elts)
+            try:
+                replacement = _sum_constants(arg.elts)
+            except _UNSUPPORTED_BY_BACKEND:
+                continue
+            yield node, replacement
 
         elif core.match_template(arg, basic_comprehension_template):
             if any(core.walk(arg, (ast.Attribute, ast.Subscript))):
@@ -251,7 +269,11 @@ def simplify_math_iterators(source: str) -> str:
                 for node in core.walk(arg, ast.Call)
             ):
                 continue
-            yield node, _integrate_over(arg.elt, arg.generators)
+            try:
+                replacement = _integrate_over(arg.elt, arg.generators)
+            except _UNSUPPORTED_BY_BACKEND:
+                continue
+            yield node, replacement
 
 
 @processing.fix
